@@ -1017,7 +1017,7 @@ pub fn c18(case_seed: u64, acc: &mut Acc) {
 pub const META_C19: Meta = Meta {
     id: "C19",
     level: "exploration",
-    rule: "Cases from profile `layout-lines`: 0-5 blank lines before the header; after it any mix of blank lines, comment-only lines, trailing comments and ragged indentation; LF, CRLF and mixed endings; rows at depth 0-4, repeat rows, rows right after `end loop`, last line with and without newline. The printer records the 1-based line on which it prints each row item; the reference says which row item produces the k-th yielded row; every DataRow.line must equal that recorded line (the same for all X/C expansions and loop iterations). 40% of the cases are additionally embedded as a Testcase in a generated .dig document (entities / CDATA, indentation varied) and loaded through dig::File::parse(..).load_test(0), and 30% of the static ones are iterated through try_iter_static: lines must be the same, relative to the test's own source. Non-trivial = >= 1 blank or comment line above a row and (a row at depth >= 1 or a repeat row); distinct by source text.",
+    rule: "Cases from profile `layout-lines`: 0-5 blank lines before the header; after it any mix of blank lines, comment-only lines, trailing comments and ragged indentation; LF, CRLF and mixed endings, stray CRs (not part of a CRLF pair) in the blank run before a line terminator; rows at depth 0-4, repeat rows, rows right after `end loop`, last line with and without newline. The printer records the 1-based line on which it prints each row item; the reference says which row item produces the k-th yielded row; every DataRow.line must equal that recorded line (the same for all X/C expansions and loop iterations). 40% of the cases are additionally embedded as a Testcase in a generated .dig document (entities / CDATA, indentation varied) and loaded through dig::File::parse(..).load_test(0), and 30% of the static ones are iterated through try_iter_static: lines must be the same, relative to the test's own source. Non-trivial = >= 1 blank or comment line above a row and (a row at depth >= 1 or a repeat row); distinct by source text.",
     assumptions: &["reference interpreter decides which source row each yielded row comes from"],
     quick_cases: 120000,
     thorough_cases: 2000000,
@@ -1045,6 +1045,7 @@ pub fn c19(case_seed: u64, acc: &mut Acc) {
     case.layout_opts.trailing_comments = *r.pick(&[0, 200, 500]);
     case.layout_opts.indent = r.below(4) as u8;
     case.layout_opts.trailing_newline = r.chance(1, 2);
+    case.layout_opts.stray_cr = *r.pick(&[0, 0, 150, 400]);
     let ran = run_oracles(
         &case,
         case_seed,
@@ -1070,6 +1071,7 @@ pub fn c19(case_seed: u64, acc: &mut Acc) {
         },
         |c, ran, acc| {
             acc.tag_n("crlf_or_mixed_line_endings", (c.layout_opts.eol > 0) as u64);
+            acc.tag_n("stray_CR_before_line_terminators", (c.layout_opts.stray_cr > 0) as u64);
             acc.tag_n("blank_lines_before_header", (c.layout_opts.leading_blank > 0) as u64);
             acc.tag_n("no_trailing_newline", !c.layout_opts.trailing_newline as u64);
             acc.event("row_lines_compared", ran.rf.stats.rows as u64);
